@@ -113,7 +113,7 @@ contract(SOL + "pre_irrigation.py", "pre_irrigation",
 contract(SOL + "groundwater_inflow.py", "groundwater_inflow",
          params=dict(prof=OBJ("SoilProfile"), NewCond=OBJ("InitialCondition")),
          ghost=GHOST_N,
-         requires=WF() + ["forall(j, 0, n, prof.zMid[j] == prof.dzsum[j] - prof.dz[j] / 2)", WATER_INV("NewCond.th"),
+         requires=WF() + ["forall(j, 0, n - 1, prof.zMid[j] <= prof.zMid[j+1])", WATER_INV("NewCond.th"),
                           "length(prof.Comp) == n",
                           "implies(NewCond.wt_in_soil, prof.zMid[n-1] >= NewCond.z_gw)"],
          returns=[("Out", ("Param", "NewCond")), ("GwIn", "Real")],
@@ -292,7 +292,9 @@ contract(SOL + "infiltration.py", "infiltration",
          props=("C01", "C02", "C03", "C04", "C12", "C16", "C20"))
 
 # ----------------------------------------------------------------------------- check_groundwater_table
-WF_ZMID = ["forall(j, 0, n, prof.zMid[j] == prof.dzsum[j] - prof.dz[j] / 2)"]
+# mid-depths as STORED by the initialiser: only their order is assumed (after profile deepening the stored zMid of the appended
+# compartments is a forward-filled copy, see known finding C18 zMid-after-deepening), never zMid == dzsum - dz/2
+WF_ZMID = ["forall(j, 0, n - 1, prof.zMid[j] <= prof.zMid[j+1])"]
 _XMAX = "ite(prof.th_fc[{j}] <= 0.1, 1, ite(prof.th_fc[{j}] >= 0.3, 2, exp((2 + 0.3 * (prof.th_fc[{j}] - 0.1) / 0.2) * log(10)) / 100))"
 _FAR = "(z_gw - prof.zMid[n-1] >= " + _XMAX.format(j="n-1") + ")"
 _CGT_B = "forall(j, {lo}, n, prof.th_fc[j] <= thfcAdj[j] and thfcAdj[j] <= prof.th_s[j])"
